@@ -210,6 +210,11 @@ fn run_with_coverage(
     let mut sut = Sut::create(key_seed, world, CacheMode::None).map_err(|f| (0, f))?;
     sut.get_cap = get_cap;
     sut.cmp_mask = CMP_ALL;
+    // every third reopen of seeded-random histories goes through a plain build() on the
+    // existing storage (no key pair, no open flag): stored key and state must win
+    if key_seed > 1000 {
+        sut.plain_reopen_every = 3;
+    }
     sut.check("after build").map_err(|f| (0, f))?;
     let mut data_len_after_trunc: Option<u64> = None;
     for (i, op) in ops.iter().enumerate() {
